@@ -29,6 +29,13 @@ for pid, spec in PM.PROPS.items():
         for name, ok, detail in fn(src):
             if not ok:
                 out["fail"].append([name, [pid], "census", "census"])
+    for fn in spec.get("lemmas", []):
+        try:
+            for o in fn(20000):
+                if o["status"] != "discharged" and not o["status"].startswith("known:"):
+                    out["fail"].append([o["name"], [pid], "census", "lemma"])
+        except Exception as e:
+            out["undecided"].append(["lemma of " + pid, str(e)[:200]])
 print("JSON" + json.dumps(out))
 '''
 for n in names:
